@@ -36,7 +36,7 @@ let scr = ref { sfb = empty_fb; scur = None; sx = Z0; sy = Z0; subuf = [] }
 let sw = ref 0
 let sh = ref 0
 let pending = ref { cw = Z0; ch = Z0; cxhot = Z0; cyhot = Z0; csource = None; cmask = []; crich = None;
-                    calpha = None; cpremult = false; cfore = ((Z0, Z0), Z0); cback = ((Z0, Z0), Z0) }
+                    calpha = None; cpremult = false; cfore = ((Z0, Z0), Z0); cback = ((Z0, Z0), Z0); cderived = false }
 let px = ref Z0
 let py = ref Z0
 let maxcl = 4
@@ -126,12 +126,21 @@ let () =
         print_endline "fb ok"
     | ["cur"; w; h; xh; yh; pm; fr; fg; fb_; br; bg; bb] ->
         pending := { cw = zi w; ch = zi h; cxhot = zi xh; cyhot = zi yh; csource = None; cmask = []; crich = None;
-                     calpha = None; cpremult = (pm = "1"); cfore = ((zi fr, zi fg), zi fb_); cback = ((zi br, zi bg), zi bb) };
+                     calpha = None; cpremult = (pm = "1"); cfore = ((zi fr, zi fg), zi fb_); cback = ((zi br, zi bg), zi bb);
+                     cderived = false };
         print_endline "cur ok"
     | ["src"; s] -> pending := { !pending with csource = (if s = "-" then None else Some (hexbytes s)) }; print_endline "src ok"
     | ["mask"; s] -> pending := { !pending with cmask = (if s = "-" then [] else hexbytes s) }; print_endline "mask ok"
     | "rich" :: toks -> pending := { !pending with crich = (if toks = ["-"] then None else Some (hexlist toks)) }; print_endline "rich ok"
     | ["alpha"; s] -> pending := { !pending with calpha = (if s = "-" then None else Some (hexbytes s)) }; print_endline "alpha ok"
+    | "newfb" :: bps :: toks ->
+        (* rfbNewFramebuffer(same size, same bytes per pixel, bitsPerSample bps) with the given pixels *)
+        let fnew = init_format !fmt.bpp (zi bps) in
+        let f = { fw = z_of_int !sw; fh = z_of_int !sh; rows = chunks !sw (hexlist toks) } in
+        let l = conn () in
+        let (s', cl') = new_framebuffer !fmt fnew !scr (List.map snd l) f in
+        scr := s'; put_back (List.map fst l) cl'; fmt := fnew;
+        if l = [] then print_endline "newfb ok" else pump_obs "newfb"
     | ["defcur"] ->
         harvest ();
         let c = use_shared v_cache !dtag !fmt !dc in
